@@ -59,6 +59,18 @@ Theorem C01_get_event_returns_stored : forall s b i s' r,
 Proof. exact get_event_returns_stored. Qed.
 Print Assumptions C01_get_event_returns_stored.
 
+(* insert (event without id): what is handed back unfolds to the same tree as the event
+   now stored, which carries the caller's timestamp and duration and the new id *)
+Theorem C01_insert_returns_stored : forall s b e s' r t d ks,
+  lookup (heap_of s) e = Some (Cell (TEv None t d) ks) ->
+  insert_one s b e = Ok (s', RRoot r) ->
+  exists bk' c tr i,
+    find_bucket (store s') b = Some bk' /\ In c (b_events bk') /\
+    content_of (heap_of s') c = Ok tr /\ content_of (heap_of s') r = Ok tr /\
+    option_map ctag (lookup (heap_of s') c) = Some (TEv (Some i) t d).
+Proof. exact insert_one_returns_stored. Qed.
+Print Assumptions C01_insert_returns_stored.
+
 Theorem C01_get_metadata_returns_stored : forall s b s' r bk,
   Sep s -> get_metadata s b = Ok (s', RRoot r) -> find_bucket (store s) b = Some bk ->
   content_of (heap_of s') r = content_of (heap_of s') (b_meta bk) /\
